@@ -3,16 +3,17 @@
 # /repo's HEAD, revert the 'fix:' commit there (git revert -n; skipped when it
 # does not revert cleanly because a later repair touches the same lines), and
 # run the checks of the properties recorded for that commit against it.
+# Optional argument: comma-separated list of commits to restrict the run to.
 # Expected: exit 1 and the recorded signature among the reported ones.
 #   REVERT <commit> <property> exit=<rc> recorded-signature=<seen|not-seen> <signature>
 set -u
-cd /verif
+cd "$(dirname "$0")/.."
 LIST=/tmp/reverts_$$.txt
-python3 - <<'EOF' | sort -s -t$'\t' -k1,1 > "$LIST"
-import json
-d = json.load(open('/verif/known_findings.json'))
+ONLY="${1:-}" python3 - <<'EOF' | sort -s -t$'\t' -k1,1 > "$LIST"
+import json, os
+d = json.load(open('known_findings.json'))
 for e in d['findings']:
-    if e.get('status') == 'fixed':
+    if e.get('status') == 'fixed' and (not os.environ.get('ONLY') or e['commit'] in os.environ['ONLY'].split(',')):
         print("%s\t%s\t%s" % (e['commit'], e['property'], e['signature']))
 EOF
 CUR=""; WT=""; OK=0
@@ -20,7 +21,7 @@ drop() {
   [ -n "$WT" ] || return
   git -C /repo worktree remove --force "$WT" >/dev/null 2>&1
   H=$(python3 -c "import hashlib,sys;print(hashlib.sha1(sys.argv[1].encode()).hexdigest()[:8])" "$WT")
-  rm -rf /verif/target/*-"$H"
+  rm -rf target/*-"$H"
   WT=""
 }
 while IFS=$'\t' read -r COMMIT P S; do
